@@ -338,6 +338,18 @@ pub fn run() {
                 Some(_) => "down".to_string(),
                 None => "bad-op".to_string(),
             },
+            // an HTTP client's heartbeat (PUT /instance/beat, the light form without a beat body)
+            ["beat", i, svc, ip, port] => match idx(i, &nodes) {
+                Some(i) if nodes[i].alive() => {
+                    let (ip, port) = map_addr(ip, port, &inst_ports);
+                    match http(nodes[i].http, "PUT", &format!("/nacos/v1/ns/instance/beat?serviceName={}&ip={}&port={}&ephemeral=true", enc(svc), ip, port), 9000) {
+                        Some((200, _)) => "ok".to_string(),
+                        _ => "err".to_string(),
+                    }
+                }
+                Some(_) => "down".to_string(),
+                None => "bad-op".to_string(),
+            },
             ["listall", svc] => {
                 let mut parts = vec![];
                 for nd in nodes.iter() {
